@@ -134,6 +134,9 @@ def fold_const(e):
     if isinstance(e, ast.Compare) and len(e.ops) == 1:
         l, r = e.left, e.comparators[0]
         op = e.ops[0]
+        # X is X (same plain name, e.g. a module-level sentinel compared with itself)
+        if isinstance(l, ast.Name) and isinstance(r, ast.Name) and l.id == r.id and isinstance(op, (ast.Is, ast.IsNot)):
+            return ast.Constant(value=isinstance(op, ast.Is))
         if isinstance(l, ast.Constant):
             if isinstance(r, ast.Constant):
                 try:
